@@ -118,7 +118,7 @@ fn main() {
                 let j = run_and_judge(&plan);
                 stats.inc("jobs");
                 account(&mut stats, &plan, &j, i);
-                journal.line(&format!("END {} 0", i));
+                journal.line(&format!("END {} 0 {:016x}", i, j.log_hash));
                 i += stride;
                 completed_to = i;
                 if let Some(d) = deadline {
